@@ -136,7 +136,7 @@ def lift_bool_mul(t, memo=None):
     return rec(t)
 
 
-def compare(got, spec, axioms=(), pc=None):
+def compare(got, spec, axioms=(), pc=None, nan=True):
     """(status, detail) of a float lane `got` against its definition `spec` (both terms)"""
     if got is spec:
         return R.PROVED, 'term identical to the definition'
@@ -154,15 +154,15 @@ def compare(got, spec, axioms=(), pc=None):
         d = pg - ps
         if L.lanes_only(d):
             return R.REFUTED, 'differs from the definition: got %s ; definition %s' % (P.show_poly(pg, limit=8), P.show_poly(ps, limit=8))
-        r = P.decision_equal(g2, s2)
+        r = P.decision_equal(g2, s2, nan=nan)
         if r is True:
             return R.PROVED, 'ring-equal to the definition under every valuation of the comparison atoms'
         if r:
             return R.REFUTED, 'decision differs from the definition whenever %s: got %s ; definition %s' % (r[1], P.show_poly(r[2], limit=5), P.show_poly(r[3], limit=5))
     if O.in_fragment(got) and O.in_fragment(spec):
-        r = O.equivalent(got, spec)
+        r = O.equivalent(got, spec, nan=nan)
         if r is True:
-            return R.PROVED, 'same selection as the definition in every ordering x NaN case'
+            return R.PROVED, 'same selection as the definition in every ordering%s case' % (' x NaN' if nan else '')
         if r:
             return R.REFUTED, 'selection differs from the definition in case [%s]: got %s, definition %s' % (r[1], r[2], r[3])
     if pg is not None:
